@@ -128,7 +128,7 @@ def projIRCheck (prop : String) (p : PProject) (impl : Json) : Except String Pro
            implFails := rd.fails ++ enforceFails ++ irOut.implFails, modelFails := irOut.modelFails, nontrivial := irOut.nontrivial,
            notes := rd.notes ++ irOut.notes ++ (if p.enforce then ["d:enforce-on"] else []) }
 
-def projHandler3 : Handler := fun prop input impl => do
+def projHandler3Core : Handler := fun prop input impl => do
   if !(["C01", "C04", "C06", "C02", "C03", "C05", "C12", "C08", "C11", "C14"].contains prop) then projHandler2 prop input impl else
   let p := parseProject input
   let out ← projIRCheck prop p (impl.getD Json.null)
@@ -139,5 +139,13 @@ def projHandler3 : Handler := fun prop input impl => do
   pure { model := out.model, implView := some out.implView, specModel := out.modelFails.isEmpty, specImpl := implFails.isEmpty,
          nontrivial := out.nontrivial,
          notes := (implFails.take 8).map (tag "implfail:") ++ (out.modelFails.take 8).map (tag "modelfail:") ++ out.notes }
+
+/-- every `proj` check: the spec generators are handed the metadata the routes generator reads next
+    (`cmd.GenerateSpecAndRoutes`); if they changed it, the routes file depends on which command wrote it -/
+def projHandler3 : Handler := fun prop input impl => do
+  let v ← projHandler3Core prop input impl
+  let changed := (impl.bind fun j => (j.getObjVal? "metaChanged").toOption.bind (·.getStr?.toOption)).getD ""
+  if changed.isEmpty then pure v
+  else pure { v with specImpl := false, notes := ("implfail:new:spec-generation-mutates-metadata:" ++ changed.take 160) :: v.notes }
 
 end Gleece.Driver
